@@ -39,6 +39,17 @@ def padded_middle(t):
     return False
 
 
+def padded_tail(t):
+    from shapes import is_sized
+    if is_sized(t):
+        return False
+    if t[0] == 'struct' and t[2]:
+        return align(t) > align(t[2][-1])
+    if t[0] == 'enum':
+        return any(v and align(t) > align(v[-1]) for v in t[4])
+    return False
+
+
 def compositions(rng, n, k):
     """k random chunk sizes >= 1 (the pipe clips them)"""
     return [rng.choice([1, 1, 2, 3, 5, 8, 13, 64]) for _ in range(k)]
@@ -56,8 +67,13 @@ def stage1(shapes, seed, tier='quick'):
     # message types whose field list has padding in front of a middle field (three or more fields): a minimum size
     # computed without that padding lets a truncated message through
     from shapes import is_sized
+    # ... and unsized message types that end in trailing padding (the value's alignment exceeds that of its last
+    # field): a chunk boundary inside that padding must not make the message look complete
     prio = [(sid, t) for sid, t in ms if padded_middle(t) and not is_sized(t)][:3] + \
-           [(sid, t) for sid, t in ms if padded_middle(t) and is_sized(t) and t[0] == 'enum'][:1]
+           [(sid, t) for sid, t in ms if padded_middle(t) and is_sized(t) and t[0] == 'enum'][:1] + \
+           [(sid, t) for sid, t in ms if padded_tail(t) and t[0] == 'enum'][:2] + \
+           [(sid, t) for sid, t in ms if padded_tail(t) and t[0] == 'struct'][:2]
+    prio = [x for i, x in enumerate(prio) if x not in prio[:i]]
     pick = prio + [x for x in pick if x not in prio][:nshapes - len(prio)]
     for sid, t in pick:
         nlists = 2 if tier == 'quick' else 4
